@@ -166,10 +166,51 @@ fn run_one(log: &mut Log, rng: &mut Rng, sh: &Shape, k: usize) {
     });
 }
 
+/// thorough tier only: an all-ones vector of 2^32 + 16 bits (512 MiB) in ONE superblock (k = 2^28): more
+/// than 2^32 one bits are summed inside a superblock. Positions and answers are logged minus 2^32 (the
+/// trace holds 31-bit integers): rank_1(2^32 + d) - 2^32 must be d + 1, rank_0 must be 0.
+fn beyond_2p32(log: &mut Log) {
+    const BASE: u64 = 1 << 32;
+    let extra: u64 = 16;
+    let k: usize = 1 << 28;
+    if !log.begin("b32", json!({"n": extra, "k": k.to_string(), "P": 1, "R": [0], "X": [], "base": BASE.to_string()})) {
+        return;
+    }
+    let mut rs: Option<RankSelect> = None;
+    log.call("new", json!({}), || {
+        let bits: BitVec<u8> = BitVec::new_fill(true, BASE + extra);
+        rs = Some(RankSelect::new(bits, k));
+        json!({})
+    });
+    let rs = match rs {
+        Some(r) => r,
+        None => return,
+    };
+    let ds: Vec<i64> = vec![-1, 0, 15, 16];
+    log.call("rank_hi", json!({ "ds": ds }), || {
+        let mut none = vec![];
+        let mut v1 = vec![];
+        let mut v0 = vec![];
+        for &d in &ds {
+            let i = (BASE as i64 + d) as u64;
+            let r1 = rs.rank_1(i);
+            let r0 = if d == 0 { rs.rank_0(i) } else { r1.map(|_| 0) };
+            none.push(r1.is_none() as u8);
+            v1.push(r1.map(|x| x as i64 - BASE as i64).unwrap_or(0));
+            v0.push(r0.map(|x| x as i64).unwrap_or(0).min(1 << 30));
+        }
+        json!({"none": none, "v1d": v1, "v0": v0})
+    });
+    log.oblige("more_than_2p32_ones_in_a_superblock");
+}
+
 pub fn drive(log: &mut Log) {
     let seed = log.opts.seed;
     let thorough = log.opts.thorough();
     let mut case: u64 = 0;
+    if thorough && log.mine(0) && std::env::var("VERIF_RS_HUGE").map(|v| v != "0").unwrap_or(true) {
+        beyond_2p32(log);
+    }
     let ks: [usize; 5] = [1, 3, 2048, 4096, 70_000];
     let ns: Vec<u64> = if thorough { vec![20_000, 150_000, 300_001, 1_000_000] } else { vec![20_000, 150_000, 1_000_000] };
     for &n in &ns {
@@ -227,5 +268,9 @@ pub fn drive(log: &mut Log) {
 }
 
 fn main() {
+    // the 2^32-bit vector of the thorough tier needs seconds per call
+    if std::env::var("VERIF_CALL_TIMEOUT_MS").is_err() {
+        std::env::set_var("VERIF_CALL_TIMEOUT_MS", "180000");
+    }
     bio_verif_harness::run(drive)
 }
